@@ -36,8 +36,8 @@ m = {
     'hooks': {'guard': 'html2text_verif',
               'enable': 'harness/.cargo/config.toml passes --cfg html2text_verif (with --check-cfg) to rustc, which also applies to the path dependency /repo',
               'baseline_off_cmd': 'cd /repo && cargo test --workspace --no-fail-fast --offline',
-              'source_commits': ['2b3f83258c694a3ff65a4a1b272a06b039ceb0ce', 'a716d5b5dadd5a68cbe5dedb8a920d873ef95596'], 'add_only': True,
-              'what': 'one event per do_render_node call (node kind + 17 scalars of the renderer state), recorded only while html2text::verif::start() is active; validated by spec/trace/TraceSteps.tla'},
+              'source_commits': ['2b3f83258c694a3ff65a4a1b272a06b039ceb0ce', 'a716d5b5dadd5a68cbe5dedb8a920d873ef95596', 'ac25f06d629036c492085a1637aa2ead0ff77c69'], 'add_only': True,
+              'what': 'one event per do_render_node call (node kind + 17 scalars of the renderer state + the size estimate of the node), recorded only while html2text::verif::start() is active; validated by spec/trace/TraceSteps.tla'},
     'engines': [{'name': 'tlc', 'path': 'spec/', 'serves_properties': claimed,
                  'kind_free_text': 'explicit TLA+ specification of html2text (Wrap, Tree, Render step machine, Css, Api, Props) checked with TLC: bounded MC configs in spec/mc, trace specs in spec/trace (TraceProps, TraceModel, TraceSteps); Rust harness h2tv generates/concretises/executes/abstracts'}],
     'checks': checks,
